@@ -799,7 +799,49 @@ def rule_decoders_check_shapes(ctx: Ctx, rep: Report) -> None:
     rep.floor(rule, 4)
 
 
+def rule_int_fields_typed(ctx: Ctx, rep: Report) -> None:
+    """C19.int_fields_typed: a psbt map's integer fields arrive from json as
+    whatever the json held. Before `assert_valid` compares one with its bounds,
+    its type is asked (`is_integer`, directly or in a helper that walks the
+    field names) or it is handed to a validator of its own (`valid_...`,
+    `assert_...`): an optional integer field that is only ever *compared* is a
+    TypeError about `<=` for a string."""
+    from rules.C05 import _optional_int
+    rule = "C19.int_fields_typed"
+    n = 0
+    for q in ("btclib.psbt.psbt_in.PsbtIn", "btclib.psbt.psbt_out.PsbtOut", "btclib.psbt.psbt.Psbt"):
+        ci = ctx.cls(q)
+        av = ci.methods["assert_valid"]
+        typed: set[str] = set()
+        fns = [av] + [f for name, f in av.module.functions.items() if any(isinstance(c, ast.Call) and call_name(c) == name for c in own_nodes(av.node))]
+        for f in fns:
+            asks = any(isinstance(c, ast.Call) and call_name(c) == "is_integer" for c in own_nodes(f.node))
+            if asks:
+                typed |= {c.value for c in own_nodes(f.node) if isinstance(c, ast.Constant) and isinstance(c.value, str)}
+                typed |= {x.attr for c in own_nodes(f.node) if isinstance(c, ast.Call) and call_name(c) == "is_integer" for x in ast.walk(c) if isinstance(x, ast.Attribute)}
+        # fields handed to the helper positionally (Psbt: _assert_int_field_types(self.tx_modifiable, self.fallback_lock_time))
+        for c in own_nodes(av.node):
+            if isinstance(c, ast.Call):
+                callee = av.module.functions.get(call_name(c))
+                if callee is not None and any(isinstance(x, ast.Call) and call_name(x) == "is_integer" for x in own_nodes(callee.node)):
+                    typed |= {x.attr for a_ in c.args for x in ast.walk(a_) if isinstance(x, ast.Attribute)}
+                if call_name(c).startswith(("valid_", "assert_valid_", "_assert_valid")) or call_name(c) in ("valid_sats_amount",):
+                    typed |= {x.attr for a_ in c.args for x in ast.walk(a_) if isinstance(x, ast.Attribute)}
+        for st in ci.node.body:
+            if isinstance(st, ast.AnnAssign) and isinstance(st.target, ast.Name) and (_optional_int(ctx, st.annotation) or str(norm(st.annotation)) == "int"):
+                f = st.target.id
+                compared = any(isinstance(c, ast.Compare) and any(isinstance(x, ast.Attribute) and x.attr == f for x in ast.walk(c)) and any(isinstance(o, (ast.Lt, ast.LtE, ast.Gt, ast.GtE)) for o in c.ops) for c in own_nodes(av.node))
+                if not compared and f not in typed:
+                    continue
+                n += 1
+                rep.ob(rule, f"{ci.name}.{f}", f in typed, av.where(), f"`{f}` is asked its type (or validated by its own validator) before it is compared" if f in typed else
+                       f"`{ci.name}.assert_valid` compares `{f}` with its bounds without asking its type: a json string is a TypeError about the operator")
+    rep.floor(rule, 6)
+
+
 RULES = [
+    ("C19.int_fields_typed", rule_int_fields_typed),
+
     ("C19.decoders_check_shapes", rule_decoders_check_shapes),
 
     ("C19.lookahead_bounded", rule_lookahead_bounded),
